@@ -569,6 +569,8 @@ def run(ck, F):
         ok1 = False
         if len(o6) == 1 and o6[0][1] == 'return':
             v = o6[0][2]
+            if isinstance(v, tuple) and v[:2] == ('op', '<') and len(v) == 4 and isinstance(v[3], tuple) and v[3][:2] == ('k', 0):
+                v = ('call', 'std::operator<', None, (v[2], v[3]))      # `(a <=> b) < 0`, the comparison category test evaluated
             if isinstance(v, tuple) and v[0] == 'call' and contracts.fn_simple(v[1]) == 'operator<' and len(v[3]) == 2:
                 l, r = v[3]
                 if isinstance(l, tuple) and l[0] == 'call' and contracts.fn_simple(l[1]) == 'operator<=>' and len(l[3]) == 2:
